@@ -247,7 +247,9 @@ func (e *EvalBinaryNode) EvalInt(scope *Scope, executionState ExecutionState) (i
 }
 
 func (e *EvalBinaryNode) eval(scope *Scope, executionState ExecutionState) (resultContainer, *ErrSide) {
-	if scope != nil && (e.leftEvaluator.IsDynamic() || e.rightEvaluator.IsDynamic()) {
+	// (evaluationFn is nil after a type guard failure of an operand that is not dynamic itself
+	// but wraps a dynamic one, e.g. !"ref": without looking again the node would fail forever)
+	if scope != nil && (e.evaluationFn == nil || e.leftEvaluator.IsDynamic() || e.rightEvaluator.IsDynamic()) {
 		// Specialise on the current operand types before the operands are evaluated.
 		// Relying on the type guard retry below alone would evaluate the operands twice,
 		// advancing stateful functions (count, sigma, ...) twice for a single point, and
